@@ -373,9 +373,9 @@ def duplicates(codebase: CodeBase, stream: TextIO = sys.stdout):
     for i, matches in enumerate(confirmed_matches):
         print(f"Match {i}:", file=stream)
         for path in matches:
-            print(f"- {path}")
+            print(f"- {path}", file=stream)
         if i != len(confirmed_matches) - 1:
-            print("")
+            print("", file=stream)
 
 
 def _human_readable(x: int) -> str:
